@@ -4,9 +4,11 @@
  * after each short episode.  Histories hold at most 64 operations.
  *
  * Intervals are [call, ret] TSC stamps taken with ts_before()/ts_after(), so
- * they are supersets of the true intervals; `eps` widens them further.  An
- * operation may be linearised next iff no other pending operation returned
- * (by more than eps) before it was called.
+ * they are supersets of the true intervals; `eps` widens them further between
+ * threads.  An operation may be linearised next iff no pending operation of
+ * ANOTHER thread returned (by more than eps) before it was called and no pending
+ * operation of the SAME thread was called before it (program order is exact:
+ * `thread` must identify one sequential actor).
  */
 #ifndef LIN_H
 #define LIN_H
